@@ -2459,6 +2459,11 @@ namespace bloch::runtime {
 
             bool lIsBool = l.type == Value::Type::Boolean;
             bool rIsBool = r.type == Value::Type::Boolean;
+            // String concatenation accepts any printable operand, booleans included
+            // ("flag: " + true); it must be recognised before the boolean-operator checks.
+            if (bin->op == "+" && (l.type == Value::Type::String || r.type == Value::Type::String)) {
+                return {Value::Type::String, 0, 0.0, 0, valueToString(l) + valueToString(r)};
+            }
             if (lIsBool || rIsBool) {
                 auto toBool = [&](const Value& v) -> bool {
                     if (v.type == Value::Type::Boolean)
